@@ -68,8 +68,13 @@ theorem isPrimeTD'_iff (n : Nat) : isPrimeTD' n = true ↔ 2 ≤ n ∧ ∀ d, 2 
         apply (Nat.div_lt_iff_lt_mul (by omega)).2
         omega
       have hk2 : 2 ≤ n / d := by
-        apply (Nat.le_div_iff_mul_le (by omega)).2
-        omega
+        generalize n / d = k at hk
+        rcases Nat.lt_or_ge k 2 with hlt | hge
+        · have h01 : k = 0 ∨ k = 1 := by omega
+          rcases h01 with h0 | h1
+          · rw [h0] at hk; omega
+          · rw [h1] at hk; omega
+        · exact hge
       have hkk : (n / d) * (n / d) ≤ n := by
         have : (n / d) * (n / d) ≤ d * (n / d) := Nat.mul_le_mul_right _ (by omega)
         omega
@@ -98,7 +103,9 @@ theorem base_eq : base.toList = (List.range 8168).filter (fun n => decide (3 ≤
 theorem base_mem_iff (n : Nat) : n ∈ base.toList ↔ 3 ≤ n ∧ n ≤ 8167 ∧ isPrimeTD' n = true := by
   rw [base_eq]
   simp only [List.mem_filter, List.mem_range, Bool.and_eq_true, decide_eq_true_eq]
-  omega
+  constructor
+  · rintro ⟨h1, h2, h3⟩; exact ⟨h2, by omega, h3⟩
+  · rintro ⟨h1, h2, h3⟩; exact ⟨by omega, h1, h3⟩
 
 theorem base_sorted_list : base.toList.Pairwise (· < ·) := by
   rw [base_eq]
